@@ -5,4 +5,4 @@
 From Coq Require Import Extraction ExtrOcamlBasic ExtrOcamlNativeString.
 From Educe.Model Require Import Driver.
 Extraction Language OCaml.
-Extraction "model.ml" expand expand_flat items_toks flat all_traits trait_name err_name.
+Extraction "model.ml" expand expand_flat expand_alt_errs items_toks flat all_traits trait_name err_name.
